@@ -35,7 +35,7 @@ COMPONENTS = {
     'simulated': ['locks', 'thread scheduling', 'clock/sleep', 'station server (replaced by watcher threads using asdict_with_event)'],
 }
 WARMUP = 12
-QUICK = {'budget_s': 40}
+QUICK = {'budget_s': 60}
 THOROUGH = {'budget_s': 480}
 EXPECTED_PROBES = ['notify_inside_snapshot_window', 'two_watchers_one_notify', 'watcher_woken',
                    'checked_while_watcher_waits', 'whole_run_watcher_saw_completed', 'user_input_scenario']
@@ -54,7 +54,7 @@ def setup():
 
 
 def run_one(tape):
-  mode = tape.weighted([(6, 'micro'), (3, 'exec'), (2, 'user_input')], 'mode')
+  mode = tape.weighted([(4, 'micro'), (5, 'exec'), (2, 'user_input')], 'mode')
   if mode == 'exec':
     return run_exec(tape)
   if mode == 'user_input':
@@ -147,7 +147,8 @@ def _extract(pair):
   if ps:
     for n, m in ps['measurements'].items():
       if 'measured_value' in m:
-        meas[n] = m['measured_value']
+        v = m['measured_value']
+        meas[n] = list(v) if isinstance(v, list) else v   # (the rendered list is the live cache)
   view = {'status': snap['status'], 'phase': ps['name'] if ps else None, 'meas': meas,
           'logs': set(l['message'] for l in snap['test_record']['log_records']),
           'n_phases': len(snap['test_record']['phases'])}
@@ -163,8 +164,8 @@ def run_exec(tape):
   ww = _mods['wexec_watch']
   strict = tape.chance(700, 'strict')
   if strict:
-    prof = gen_mod.profile(max_nodes=6, max_depth=2, p_meas=700, p_logs=600, p_attach=100, p_diag=150, p_dur=200,
-                           p_fault_beh=200, p_plug=150, p_test_start=150)
+    prof = gen_mod.profile(max_nodes=6, max_depth=2, p_meas=700, p_logs=600, p_attach=100, p_diag=150, p_dur=300,
+                           p_fault_beh=200, p_plug=150, p_test_start=150, p_monitor=300, max_meas=5)
   else:
     prof = gen_mod.profile(max_nodes=6, max_depth=2, p_meas=400, p_logs=400, p_dur=200, p_fault_beh=250, p_plug=200,
                            p_timeout=150, abort=500, abort2=200, p_test_start=200, plug_faults=150)
@@ -189,6 +190,10 @@ def run_exec(tape):
             'watcher_sees': repr(view['meas'].get(name, '<unset>')), 'n_set_in_snapshot': len(view['meas'])}}
       elif kind == 'log' and name not in view['logs']:
         bad = {'clause': 'log_record_not_notified', 'details': {}}
+      elif kind == 'mon' and view['phase'] == phase and len(view['meas'].get(name) or ()) < val:
+        # a monitor thread assigns its samples through one retained measurement handle
+        bad = {'clause': 'monitor_sample_not_notified', 'details': {'samples_taken': val,
+                                                                   'watcher_sees': len(view['meas'].get(name) or ())}}
       if bad is not None and not viols:
         viols.append(bad)
 
